@@ -30,6 +30,7 @@ from slimta.bounce import Bounce
 class VClock(object):
     def __init__(self):
         self.now = 1000.0
+        self.mono_base = 990.0
         self.timers = []
         self.seq = 0
 
@@ -64,9 +65,21 @@ CLOCK = VClock()
 
 
 class _TimeShim(object):
-    @staticmethod
-    def time():
+    """Stands in for the `time` module inside slimta.queue. The wall clock and the monotonic clock have different epochs, and
+    the monotonic one starts afresh when the process is restarted (as after a reboot): durations may be measured with
+    either, timestamps that go into the store only with the wall clock."""
+
+    def time(self):
         return CLOCK.now
+
+    def monotonic(self):
+        return CLOCK.now - CLOCK.mono_base
+
+    perf_counter = monotonic
+
+    def __getattr__(self, name):
+        import time as _real
+        return getattr(_real, name)
 
 
 class VEvent(gevent.event.Event):
@@ -105,7 +118,7 @@ class _GeventShim(object):
 
 
 GSHIM = _GeventShim()
-squeue.time = _TimeShim
+squeue.time = _TimeShim()
 squeue.Event = VEvent
 squeue.gevent = GSHIM
 
@@ -308,6 +321,7 @@ class Engine(object):
     def __init__(self, cfg):
         self.cfg = cfg
         CLOCK.now = 1000.0
+        CLOCK.mono_base = 990.0
         CLOCK.timers = []
         GSHIM.spawned = []
         self.pending = []
@@ -850,6 +864,7 @@ class Engine(object):
         gevent.idle()
         GSHIM.spawned = []
         CLOCK.timers = []
+        CLOCK.mono_base = CLOCK.now - 10.0          # the new process runs after a reboot: its monotonic clock starts again
         for m in self.msgs.values():
             m.flushed = False
             m.known = False
